@@ -9,7 +9,8 @@ ASPECTS = ['object-name', 'set-identifier', 'header-id', 'signed-int', 'channel-
            'non-uniform-index', 'attr-units', 'channel-units', 'index-type', 'equipment-type', 'equipment-location',
            'ident-attribute']
 PATTERNS = ['plain', 'nested', 'exception-at-build', 'exception-at-write', 'decorator', 'generator-abandoned',
-            'interleaved-outside-file', 'assign-after-leaving', 'created-outside-assigned-inside']
+            'interleaved-outside-file', 'assign-after-leaving', 'created-outside-assigned-inside', 'nested-decorators',
+            'decorator-inside-with', 'with-inside-decorator']
 META = {
     'level': 'exploration',
     'rule': ('one evaluation = one (specification, context pattern) executed inside the high-compatibility context and outside it: '
@@ -311,6 +312,42 @@ def run_case(case):
         inside = box['run']
         if not box.get('flag'):
             flag_problems.append('mode was off inside a decorated function')
+    elif pattern in ('nested-decorators', 'decorator-inside-with', 'with-inside-decorator'):
+        box = {}
+
+        @high_compatibility_mode_decorator
+        def inner(depth=0):
+            box.setdefault('flags', []).append(global_config.high_compat_mode)
+            if depth:
+                inner(depth - 1)        # recursion through the decorator
+
+        @high_compatibility_mode_decorator
+        def outer():
+            inner(r.choice([0, 1, 2]))
+            box['after-inner'] = global_config.high_compat_mode
+            box['run'] = build_and_write(sp)
+
+        @high_compatibility_mode_decorator
+        def with_inside():
+            with high_compatibility_mode():
+                pass
+            box['after-inner'] = global_config.high_compat_mode
+            box['run'] = build_and_write(sp)
+        if pattern == 'nested-decorators':
+            outer()
+        elif pattern == 'decorator-inside-with':
+            with high_compatibility_mode():
+                inner(1)
+                box['after-inner'] = global_config.high_compat_mode
+                box['run'] = build_and_write(sp)
+        else:
+            with_inside()
+        expect_flag(before, 'after ' + pattern)
+        if box.get('after-inner') is not True:
+            flag_problems.append(f'{pattern}: leaving the inner context/decorated call switched the mode off inside the outer one')
+        if not all(box.get('flags', [True])):
+            flag_problems.append(f'{pattern}: mode was off inside a decorated function')
+        inside = box['run']
     elif pattern == 'generator-abandoned':
         def g():
             with high_compatibility_mode():
